@@ -46,6 +46,7 @@ var (
 	cBeyondPlan     = simrt.RegisterCounter("probe_device_set_with_channel_beyond_plan")
 	cBlockOps       = simrt.RegisterCounter("op_whole_block_enable_disable")
 	cStreamClosure  = simrt.RegisterCounter("probe_band_outputs_in_one_command_stream")
+	cSharedBand     = simrt.RegisterCounter("op_shared_band_with_concurrent_readers")
 	cOffGrid        = simrt.RegisterCounter("fault_custom_channel_off_the_regions_grid")
 	cOffGridRefused = simrt.RegisterCounter("probe_off_grid_value_refused_by_mac_layer_not_judged")
 	cRX1Freq        = simrt.RegisterCounter("probe_rx1_frequency_through_dlchannelreq")
@@ -58,6 +59,10 @@ var names = []band.Name{band.EU868, band.US915, band.AU915, band.AS923, band.AS9
 var versions = []string{band.LoRaWAN_1_0_0, band.LoRaWAN_1_0_1, band.LoRaWAN_1_0_2, band.LoRaWAN_1_0_3, band.LoRaWAN_1_0_4, band.LoRaWAN_1_1_0, "9.9.9"}
 
 func build(w *sim.World) {
+	if simrt.Choose(4) == 0 {
+		buildShared(w)
+		return
+	}
 	n := 1 + simrt.Choose(2)
 	w.Notef("W-PLAN: %d independent operator tasks", n)
 	for i := 0; i < n; i++ {
@@ -68,6 +73,46 @@ func build(w *sim.World) {
 		sub := simrt.Raw()
 		w.Notef("task %d: %s repeater=%v dwell=%d, %d operations", i, name, rep, dt, nOps)
 		w.Spawn(fmt.Sprintf("operator%d", i), func() { operator(name, rep, dt, nOps, sub) })
+	}
+}
+
+// buildShared: ONE band, configured and mutated before the tasks start, is
+// then used by 2-4 reader tasks at the same time (a network server's request
+// handlers share the band object of their region). The readers only call
+// operations that inspect the band - getters, lookups, GetCFList - and every
+// result must agree with the model exactly as in the single-owner runs; an
+// operation that is not read-only any more (a lazily built cache) shows up
+// as a data race or as a wrong value.
+func buildShared(w *sim.World) {
+	name := names[simrt.Choose(len(names))]
+	rep := simrt.Choose(2) == 1
+	dt := lorawan.DwellTime(simrt.Choose(2))
+	nOps := simrt.Choose(1 + 20*sim.Scale)
+	st := newState(name, rep, dt)
+	if st == nil {
+		return
+	}
+	r := sim.NewRand(simrt.Raw())
+	for k := 0; k < nOps; k++ {
+		st.op(r)
+	}
+	n := 2 + simrt.Choose(3)
+	w.Notef("W-PLAN (shared band): %s repeater=%v dwell=%d, %d operations before %d concurrent readers", name, rep, dt, nOps, n)
+	simrt.Count(cSharedBand)
+	for i := 0; i < n; i++ {
+		sub := simrt.Raw()
+		k := 1 + simrt.Choose(3)
+		w.Spawn(fmt.Sprintf("reader%d", i), func() {
+			rr := sim.NewRand(sub)
+			for j := 0; j < k; j++ {
+				if simrt.Dead() {
+					return
+				}
+				simrt.Progress()
+				st.observe(rr)
+			}
+			simrt.Count(cNontrivial)
+		})
 	}
 }
 
@@ -111,43 +156,9 @@ type state struct {
 
 func operator(name band.Name, rep bool, dt lorawan.DwellTime, nOps int, sub uint64) {
 	r := sim.NewRand(sub)
-	b, err := band.GetConfig(name, rep, dt)
-	if err != nil {
-		simrt.Report("plan.config", err.Error())
+	st := newState(name, rep, dt)
+	if st == nil {
 		return
-	}
-	st := &state{name: b.Name(), b: b, grid: map[int]bool{}}
-	se, cmin, cmax, kind := spec.PlanTraits(b.Name())
-	st.m = &spec.Plan{Name: b.Name(), SupportsExtra: se, CFMinDR: cmin, CFMaxDR: cmax, Kind: kind}
-	// the standard channels are the initial state of the model
-	enabled := map[int]bool{}
-	for _, i := range b.GetEnabledUplinkChannelIndices() {
-		enabled[i] = true
-		st.enabled0 = append(st.enabled0, i)
-	}
-	for _, i := range b.GetUplinkChannelIndices() {
-		c, err := b.GetUplinkChannel(i)
-		if err != nil {
-			simrt.Report("plan.initial", err.Error())
-			return
-		}
-		st.std = append(st.std, c)
-		st.m.Chans = append(st.m.Chans, spec.Chan{Freq: c.Frequency, MinDR: c.MinDR, MaxDR: c.MaxDR, Enabled: enabled[i]})
-	}
-	// table lengths, probed once on the brand-new band
-	for st.nDown < 1000 {
-		c, err := b.GetDownlinkChannel(st.nDown)
-		if err != nil {
-			break
-		}
-		st.stdDown = append(st.stdDown, c)
-		st.nDown++
-	}
-	for st.nTXPower < 1000 {
-		if _, err := b.GetTXPowerOffset(st.nTXPower); err != nil {
-			break
-		}
-		st.nTXPower++
 	}
 	st.observe(r)
 	st.closure(r)
@@ -180,6 +191,49 @@ func operator(name band.Name, rep bool, dt lorawan.DwellTime, nOps int, sub uint
 			simrt.Count(cFreshChanged) // band objects sharing state is property C10's subject (and is caught there)
 		}
 	}
+}
+
+// newState configures a band and builds the model of its initial state.
+func newState(name band.Name, rep bool, dt lorawan.DwellTime) *state {
+	b, err := band.GetConfig(name, rep, dt)
+	if err != nil {
+		simrt.Report("plan.config", err.Error())
+		return nil
+	}
+	st := &state{name: b.Name(), b: b, grid: map[int]bool{}}
+	se, cmin, cmax, kind := spec.PlanTraits(b.Name())
+	st.m = &spec.Plan{Name: b.Name(), SupportsExtra: se, CFMinDR: cmin, CFMaxDR: cmax, Kind: kind}
+	// the standard channels are the initial state of the model
+	enabled := map[int]bool{}
+	for _, i := range b.GetEnabledUplinkChannelIndices() {
+		enabled[i] = true
+		st.enabled0 = append(st.enabled0, i)
+	}
+	for _, i := range b.GetUplinkChannelIndices() {
+		c, err := b.GetUplinkChannel(i)
+		if err != nil {
+			simrt.Report("plan.initial", err.Error())
+			return nil
+		}
+		st.std = append(st.std, c)
+		st.m.Chans = append(st.m.Chans, spec.Chan{Freq: c.Frequency, MinDR: c.MinDR, MaxDR: c.MaxDR, Enabled: enabled[i]})
+	}
+	// table lengths, probed once on the brand-new band
+	for st.nDown < 1000 {
+		c, err := b.GetDownlinkChannel(st.nDown)
+		if err != nil {
+			break
+		}
+		st.stdDown = append(st.stdDown, c)
+		st.nDown++
+	}
+	for st.nTXPower < 1000 {
+		if _, err := b.GetTXPowerOffset(st.nTXPower); err != nil {
+			break
+		}
+		st.nTXPower++
+	}
+	return st
 }
 
 func boundaryInt(r *sim.Rand, n int) int {
